@@ -534,8 +534,11 @@ def oracle_self_stop(sc, obs):
         if st[0] > ts + 100 + 2.5 * eps + 150:
             return f"SIGTSTP sent at {ts:.0f} ms, nextest stopped itself only at {st[0]:.0f} ms"
         if tc is not None:
+            # (a process that exits right after being continued may never be reported as continued: the exit
+            # supersedes the notification)
             ct = [t for t, kind, _ in ev if kind == "continued" and t >= tc - 5]
-            if not ct or ct[0] > tc + eps:
+            gone_soon = obs["nextest_exit_t"] < tc + eps + 60
+            if (not ct and not gone_soon) or (ct and ct[0] > tc + eps):
                 return f"SIGCONT sent at {tc:.0f} ms: nextest's parent saw it continue at {ct[:1]}"
     return None
 
@@ -590,7 +593,8 @@ def oracle_jobcontrol(sc, obs):
         if tc is None:
             continue
         ct = [t for t, kind, _ in ev if kind == "continued" and t >= tc - 5]
-        if not ct or ct[0] > tc + eps:
+        gone_soon = obs["nextest_exit_t"] < tc + eps + 60
+        if (not ct and not gone_soon) or (ct and ct[0] > tc + eps):
             return f"SIGCONT sent at {tc:.0f} ms: nextest's parent saw it continue at {ct[:1]}"
         for name, pr in sorted((obs.get("procs") or {}).items()):
             if pr["start"] is None or pr["start"] > ts - eps:
